@@ -9,7 +9,7 @@ import ast
 
 from ..core import Undecided, AnalysisError
 from ..forks import Fork
-from ..ratfun import Rat
+from ..ratfun import Rat, satom
 from ..symex import PyRaise, to_rat
 from ..namodel import NA
 from ..spacemodel import NotAnElement
@@ -29,8 +29,22 @@ def _instances(model):
             None
     for name, b in c06b.builders(model).items():
         yield 'nonlinear', name, c06b.H9, SMInterp, b, None
+    class H10(c07b.H7):
+        """The C07 hooks; a maximum / minimum whose order the designated
+        point does not decide stays an uninterpreted atom: both calls that
+        C10 compares run the same code, so the atom is the same on both
+        sides (the order matters for optimality, not for aliasing)."""
+
+        def maxmin(self, I, name, x, y):
+            try:
+                return c07b.H7.maxmin(self, I, name, x, y)
+            except Undecided:
+                x, y = to_rat(x), to_rat(y)
+                return Rat.var(satom('max' if name.startswith('max')
+                                     else 'min',
+                                     tuple(sorted((x, y), key=repr))))
     for name, (b, entries, kind) in c07b.builders(model).items():
-        yield 'proximal', name, c07b.H7, c07b.I7, b, entries
+        yield 'proximal', name, H10, c07b.I7, b, entries
 
 
 def _poisoned(r):
